@@ -5,6 +5,7 @@ Property theorems only; helper lemmas live in Lemmas/.
 import DtailModel.Lemmas.Wire
 import DtailModel.Lemmas.Fast
 import DtailModel.Lemmas.GenReader
+import DtailModel.Lemmas.GenClient
 namespace Dtail.C01
 open Dtail
 
@@ -39,6 +40,39 @@ theorem C01_generated_byte_step (ext : Go.Ext) (m : Nat) (hm : ext.maxLineLength
     ∃ f' msg', Gen.Reader.readFile.handleReadByte ext f () b () (msg ++ [b]) = (f', Gen.Reader.nothing, msg') ∧
       (⟨msg', f'.rawLines⟩ : RS) = stepByte m ⟨msg, f.rawLines⟩ b ∧ f'.seekEOF = f.seekEOF :=
   GenReader.handleReadByte_spec ext m hm f b msg
+
+/-- **Tie G: the client's `Write` as translated from the working tree is the model's client.**  `baseHandler.Write`,
+    `handleMessage`, `handleHiddenMessage` of internal/clients/handlers/basehandler.go, translated on this run (what
+    `dlog.Client.Raw` prints, what `SendMessage` is started with and every `Shutdown` are kept): for every handler state and
+    every chunk of bytes from the server, `Write` takes all of them, never panics (`message[0]` is guarded by the length
+    test), leaves the model's receive buffer, and has printed exactly the model's visible messages, whole and in order —
+    whatever the chunking, since the model is a fold over the bytes (`C01_chunking`). -/
+theorem C01_generated_client_is_model (ext : Go.Ext) (h : Gen.Client.baseHandler) (p : Bytes) :
+    ∃ h', Gen.Client.baseHandler.Write ext h p = Outcome.ok (h', (p.length : Int), none) ∧
+      h'.receiveBuf = (clientFeed ⟨h.receiveBuf, []⟩ p).buf ∧
+      (h'.printed.flatten = h.printed.flatten ++ printed (clientFeed ⟨h.receiveBuf, []⟩ p).msgs) := by
+  obtain ⟨h', h1, h2, h3, _, _⟩ := GenClient.Write_refines ext h p
+  refine ⟨h', h1, h2, ?_⟩
+  rw [h3, List.flatten_append]
+  rfl
+
+/-- the close handshake on the translated client: every hidden `.syn close connection` message is answered with one
+    `.ack close connection` and one shutdown, and nothing else is ever sent -/
+theorem C01_generated_client_close_handshake (ext : Go.Ext) (h : Gen.Client.baseHandler) (p : Bytes) :
+    ∃ h', Gen.Client.baseHandler.Write ext h p = Outcome.ok (h', (p.length : Int), none) ∧
+      h'.sent = h.sent ++ (GenClient.syns (clientFeed ⟨h.receiveBuf, []⟩ p).msgs).map (fun _ => Gen.Client.lit_1) ∧
+      h'.shutdowns.length = h.shutdowns.length + (GenClient.syns (clientFeed ⟨h.receiveBuf, []⟩ p).msgs).length := by
+  obtain ⟨h', h1, _, _, h4, h5⟩ := GenClient.Write_refines ext h p
+  exact ⟨h', h1, h4, h5⟩
+
+/-- non-vacuity: two chunks, a message split between them, a hidden message, a close request -/
+example :
+    let ext : Go.Ext := { parseFloat := fun _ => (0, none) }
+    (match Gen.Client.baseHandler.Write ext {} (b!"ab") with
+      | .ok (h, _, _) => (match Gen.Client.baseHandler.Write ext h ([99, DELIM] ++ b!".x" ++ [DELIM] ++ b!".syn close connection" ++ [DELIM] ++ b!"d\n") with
+        | .ok (h, _, _) => (h.printed, h.sent.length, h.shutdowns.length)
+        | _ => ([], 0, 0))
+      | _ => ([], 0, 0)) = ([b!"abc", b!"d\n"], 1, 1) := by decide
 
 /-- non-vacuity: a line longer than the limit and an unterminated last line -/
 example :
